@@ -803,7 +803,10 @@ def sep(rng, messy):
 JUNK = ['# a comment', '#VERTEX_SE2 1 2 3 4', 'FIX 0', 'VERTEX_SE2\t1 2 3 4', ' VERTEX_SE2 1 2 3 4', 'vertex_se2 1 2 3 4',
         'EDGE_SE2_XYZ 1 2 3', 'VERTEX_SE3 1 2 3', 'EDGE_SE3 1 2', 'PARAMS_CAMERAPARAMETERS 0 1 2 3', 'VERTEX_SE2', 'EDGE_SE2',
         'VERTEX_XY', 'TestEdge', 'TestEdge2 1 2 3', 'XVERTEX_XY 1 2 3', 'VERTEX_SE3:QUATX 1 2', 'EDGE_SE3:QUA 1', 'garbage',
-        '\tVERTEX_XY 1 2 3', 'PARAMS_SE3OFFSET\t1 2', 'VERTEX_TRACKXYZ\x0c1 2 3 4', '"quoted"', '0 0 0']
+        '\tVERTEX_XY 1 2 3', 'PARAMS_SE3OFFSET\t1 2', 'VERTEX_TRACKXYZ\x0c1 2 3 4', '"quoted"', '0 0 0',
+        # a recognised tag that is NOT at the start of the line (commented-out definitions, prose mentioning a tag) is not that kind of line
+        '# PARAMS_SE3OFFSET 0 9 9 9 0 0 1 0', '#PARAMS_SE2OFFSET 4 1 2 3', '// PARAMS_SE3OFFSET 1 0 0 0 0 0 0 1', 'old: PARAMS_SE2OFFSET 0 5 5 0.5',
+        '# EDGE_SE2 1 2 0 0 0 1 0 0 1 0 1', 'x EDGE_SE2_XY 1 2 0 0 1 0 1', '# VERTEX_XY 9 1 1', 'was VERTEX_SE3:QUAT 3 0 0 0 0 0 0 1']
 BLANK = ['', ' ', '\t', '   \t ', '\x0c', '\x1f \x0b']
 
 
@@ -1677,8 +1680,42 @@ def shrink_text(text, cts, fails):
     return ''.join(lines)
 
 
+def check_custom_precedence():
+    """a registered custom edge type whose from_g2o recognises a line that a built-in type also recognises gets the line (custom types are asked
+    first): the object built for the line is of the registered type and carries the numbers that type's reader produced"""
+    from graphslam.util import upper_triangular_matrix_to_full_matrix as ut
+
+    class HalvedOdometry(EdgeOdometry):
+        @classmethod
+        def from_g2o(cls, line, g2o_params_or_none=None):
+            if line.startswith('EDGE_SE2 '):
+                nums = line[len('EDGE_SE2 '):].split()
+                arr = np.array([float(x) for x in nums[2:]], dtype=np.float64)
+                return cls([int(nums[0]), int(nums[1])], 0.5 * ut(arr[3:], 3), PoseSE2(arr[:2], arr[2]))
+            return None
+    text = 'VERTEX_SE2 1 0 0 0\nVERTEX_SE2 2 1 0 0\nEDGE_SE2 1 2 1 0 0 4 0 0 4 0 4\n'
+    d = tempfile.mkdtemp(prefix='g2o_', dir=os.path.join(vlib.BUILD, 'corr'))
+    try:
+        pth = os.path.join(d, 'c.g2o')
+        with open(pth, 'w') as fh:
+            fh.write(text)
+        g = Graph.from_g2o(pth, [HalvedOdometry])
+        e = g._edges[0] if g._edges else None
+        if e is None or type(e) is not HalvedOdometry or float(np.asarray(e.information)[0, 0]) != 2.0:
+            return {'what': 'an EDGE_SE2 line claimed by a registered custom edge type was built as %s with information[0][0] = %r (expected the custom type, 2.0)'
+                            % (type(e).__name__, None if e is None else float(np.asarray(e.information)[0, 0])), 'text': text, 'custom': ['HalvedOdometry (EdgeOdometry subclass reading EDGE_SE2 lines)']}
+    except Exception as ex:  # noqa
+        return {'what': 'custom precedence case raised %r' % (ex,), 'text': text}
+    finally:
+        shutil.rmtree(d, ignore_errors=True)
+    return None
+
+
 def oracle_files(rng, n):
     stats, fails = {}, []
+    f0 = check_custom_precedence()
+    if f0:
+        fails.append(dict(f0, oracle='custom-precedence'))
     for k in range(n):
         text, cts, desc = gen_file(rng, ['valid', 'messy', 'messy'][k % 3])
         f = check_file(text, cts, stats)
@@ -1694,6 +1731,10 @@ def oracle_files(rng, n):
 
 
 def replay_file(p):
+    if p.get('oracle') == 'custom-precedence':
+        f = check_custom_precedence()
+        print('C14 replay:', f['what'] if f else 'no failure (custom precedence)')
+        return 1 if f else 0
     f = check_file(p['text'], p.get('custom', []), {})
     print('C14 replay:', f['what'] if f else 'no failure (regex oracle)')
     return 1 if f else 0
